@@ -32,9 +32,12 @@ class Sink:
 
 
 class Truthy:
-    def __init__(self, repo: Repo, model: Model, root: Fn):
-        """root: a module-level function or class whose closure tree is analysed as one unit."""
+    def __init__(self, repo: Repo, model: Model, root: Fn, data_funcs=(), data_params=()):
+        """root: a module-level function or class whose closure tree is analysed as one unit.
+        data_funcs: names of user callables (public parameters) whose *results* are opaque data too (keys, mapped values)."""
         self.repo, self.model, self.root = repo, model, root
+        self.data_funcs = set(data_funcs)
+        self.data_params = set(data_params)
         self.depth: Dict[object, int] = {}
         self.fns = [g for g in root.walk() if g.is_func]
         self.changed = True
@@ -59,6 +62,27 @@ class Truthy:
         if isinstance(e, ast.Attribute) and isinstance(e.value, ast.Name) and e.value.id in ("self", "parent"):
             return ("a", e.attr)
         return None
+
+    def _is_data_func(self, g: Fn, name: str) -> bool:
+        """name is a data-producing user callable: a public parameter in data_funcs, or a local defaulted from one
+        (`key_mapper_ = key_mapper or identity`)."""
+        if not self.data_funcs:
+            return False
+        o = g.owner(name)
+        if o is None or not o.is_func:
+            return False
+        if name in o.params:
+            return name in self.data_funcs
+        for n in o.direct_nodes():
+            if isinstance(n, (ast.Assign, ast.AnnAssign)) and n.value is not None:
+                ts = n.targets if isinstance(n, ast.Assign) else [n.target]
+                if any(isinstance(t, ast.Name) and t.id == name for t in ts):
+                    for x in ast.walk(n.value):
+                        if isinstance(x, ast.Name) and x.id in self.data_funcs and x.id != name:
+                            ox = o.owner(x.id)
+                            if ox is not None and ox.is_func and x.id in ox.params:
+                                return True
+        return False
 
     def set_depth(self, v: Optional[object], d: Optional[int]) -> None:
         if v is None or d is None:
@@ -89,6 +113,11 @@ class Truthy:
             if ps:
                 self.depth[("v", id(g), ps[0])] = 0
                 self.seeds.append((g, ps[0]))
+        for g in [self.root] + self.fns:
+            if g.is_func:
+                for p_ in g.params:
+                    if p_ in self.data_params:
+                        self.depth[("v", id(g), p_)] = 0
 
     # -- expression depth ---------------------------------------------------
     def d(self, g: Fn, e: Optional[ast.AST]) -> Optional[int]:
@@ -123,6 +152,8 @@ class Truthy:
             return self.d(g, e.value)
         if isinstance(e, ast.Call):
             f = e.func
+            if isinstance(f, ast.Name) and self._is_data_func(g, f.id):
+                return 0
             if isinstance(f, ast.Name) and f.id == "next" and e.args:
                 # an item pulled from an iterable that is turned into stream elements (from_iterable, zip_with_iterable, range)
                 return 0
@@ -201,7 +232,8 @@ class Truthy:
     def _elem(self, g: Fn, e: ast.AST) -> bool:
         e = strip_cast(e)
         if isinstance(e, (ast.Name, ast.Attribute, ast.Subscript)) or (isinstance(e, ast.Call) and isinstance(e.func, ast.Attribute)
-                                                                        and e.func.attr in GET):
+                                                                        and e.func.attr in GET) \
+                or (isinstance(e, ast.Call) and isinstance(e.func, ast.Name) and self._is_data_func(g, e.func.id)):
             return self.d(g, e) == 0
         return False
 
@@ -271,3 +303,30 @@ class Truthy:
                     n_tests += 1
                     self._test(g, n, n, "comparison", out)
         return out, n_tests
+
+
+# user callables whose results are opaque data (public parameter names of the operator factories) and opaque data
+# parameters.  Predicates / comparers / conditions are deliberately absent: their results *are* truth values.
+DATA_FUNCS = {"key_mapper", "mapper", "element_mapper", "accumulator", "result_mapper", "mapper_indexed", "func",
+              "iterate"}
+DATA_PARAMS = {"seed", "default_value", "initial_value", "initial_state"}
+
+
+def derived_sinks(repo: Repo, model: Model, rels) -> Tuple[List[Sink], int, int]:
+    """Truth tests / None comparisons on elements *or* on data derived by user callbacks (keys, accumulations,
+    mapped values) and opaque data parameters, in the given modules.  Returns (sinks, truth-test contexts, roots)."""
+    out: List[Sink] = []
+    n_tests = n_roots = 0
+    for rel in rels:
+        mod = repo.opt_module(rel)
+        if mod is None:
+            continue
+        for root in mod.root.children:
+            if not (root.is_func or root.is_class):
+                continue
+            n_roots += 1
+            t = Truthy(repo, model, root, DATA_FUNCS, DATA_PARAMS)
+            sk, n = t.sinks()
+            n_tests += n
+            out.extend(sk)
+    return out, n_tests, n_roots
